@@ -515,12 +515,12 @@ Proof.
   - (* closed *)
     unfold ref_step in H. rewrite C in H.
     assert (SS : Sim st rs) by (unfold Sim; rewrite C; exact S).
-    destruct o as [n|n|k w| | | |q|]; try destruct q; try discriminate H;
+    destruct o as [n|n|k w| | | |q| |]; try destruct q; try discriminate H;
       injection H as <- <-; exists st; (split; [|exact SS]); cbn [step];
       unfold do_read, do_readinto, do_read, do_seek, do_tell, do_close, do_write_r, do_query, check_can_seek,
-        check_can_read, check_can_write_r, check_not_closed; rewrite S; reflexivity.
+        check_can_read, check_can_write_r, check_not_closed; try rewrite S; reflexivity.
   - destruct S as [I P].
-    destruct o as [n|n|k w| | | |q|]; cbn [step].
+    destruct o as [n|n|k w| | | |q| |]; cbn [step].
     + apply (do_read_sim F n st rs r rs'); assumption.
     + (* readinto = read + copy *)
       unfold ref_step in H. rewrite C in H. unfold do_readinto.
@@ -605,6 +605,8 @@ Proof.
       * unfold do_query, check_not_closed.
         destruct q; injection H as <- <-; destruct (mode st); try discriminate; reflexivity.
       * destruct q; injection H as <- <-; unfold Sim; rewrite C; split; assumption.
+    + unfold ref_step in H. rewrite C in H. injection H as <- <-. exists st. split; [reflexivity|].
+      unfold Sim. rewrite C. split; assumption.
     + unfold ref_step in H. rewrite C in H. injection H as <- <-. exists st. split; [reflexivity|].
       unfold Sim. rewrite C. split; assumption.
 Qed.
